@@ -786,7 +786,8 @@ def switch(depth=2):
     variants += [
         ("clock2", ch(0, clock=2)), ("clock8", ch(0, clock=8)), ("minDur16", ch(0, minDur=16)),
         ("maxDur40", ch(0, maxDur=40)), ("bw40", ch(0, bw=40.0)), ("cpjt40", ch(0, cpjt=40)),
-        ("cpjt0", ch(0, cpjt=0)), ("minRet100", ch(1, minRet=100)), ("minRet0", ch(1, minRet=0)), ("fixRet0", ch(1, fixRet=0)),
+        ("cpjt0", ch(0, cpjt=0)), ("minRet100", ch(1, minRet=100)), ("minRet0", ch(1, minRet=0)),
+        ("bwLocalNone", ch(1, bw=None)), ("fixRet0", ch(1, fixRet=0)),
         ("fixRet24", ch(1, fixRet=24)), ("locMinDur16", ch(1, minDur=16)), ("maxAmp0.9", ch(0, maxAmp=0.9)),
         ("maxDet0.5", ch(0, maxDet=0.5)), ("minAvg1.5", ch(0, minAvg=1.5)), ("eombuf48", eomkw(buf=48)),
         ("eombw20", eomkw(bw=20.0)), ("eomdet", eomkw(intermediate_detuning=500 * 2 * np.pi)),
